@@ -43,8 +43,8 @@ pub fn dispatch(cmd: &str, args: &Args) -> Option<i32> {
 }
 
 const CMR10: &[u8] = include_bytes!(concat!(
-    env!("CARGO_MANIFEST_DIR"),
-    "/../../repo/crates/tfm/corpus/computer-modern/cmr10.tfm"
+    env!("VH_REPO"),
+    "/crates/tfm/corpus/computer-modern/cmr10.tfm"
 ));
 
 const HYPHEN: char = '-';
